@@ -54,6 +54,12 @@ func c16Child() {
 		_ = os.WriteFile(filepath.Join(dir, "result.json"), b, 0o644)
 		return
 	}
+	if mode == "certexpiry" {
+		out.Witness = runCertExpiry(seed, pool, ca, dir)
+		b, _ := json.Marshal(out)
+		_ = os.WriteFile(filepath.Join(dir, "result.json"), b, 0o644)
+		return
+	}
 	if mode == "witness" {
 		out.Witness = runStaleCacheWitness(pool, dir)
 		b, _ := json.Marshal(out)
@@ -126,10 +132,12 @@ func TestC16(t *testing.T) {
 		"injects JSON members. Every token is verified with stdlib crypto against the generation its header names (pair consistency) and its system claims are checked against the call bracket; every key-set read must be " +
 		"exactly one generation's public set without private members; uncached token ops, key-set reads and reloads form a history checked with porcupine against a 'current generation' register. " +
 		"(b) e2e: assembled decision+management service with secrets_reload_enabled, tokens over HTTP, key set from /.well-known/jwks, store replaced on disk and announced through the real fsnotify watcher; " +
-		"checked for pair consistency, claims, key-set content and real-time monotonicity of generations. Lock shims perturb the scheduler between critical sections; race detector on. " +
+		"checked for pair consistency, claims, key-set content and real-time monotonicity of generations (a reload counts as done as soon as any operation shows it; a key set fetched after a token was received " +
+		"must contain that token's key). (c) one instance with several jwt finalizers (key ids shared between stores; certificates of the active keys that expire while the instance runs): every received token " +
+		"verifies against the key set fetched afterwards. Lock shims perturb the scheduler between critical sections; race detector on. " +
 		"A history is non-trivial if at least one token operation overlapped a reload.")
 	r.Assume("key stores are replaced atomically (rename); truncating in-place rewrites and their crash are C19's subject",
-		"e2e: reloads are serialised by the reloader (next store written only after the previous one was observed in the key set)",
+		"e2e: reloads are serialised by the reloader (next store written only after the previous one was observed in a key set or a received token)",
 		"race freedom, linearizability and monotonicity only on the interleavings produced",
 		"wall clock does not step backwards during a run (iat is compared with a bracket of time.Now() readings)")
 
@@ -170,7 +178,7 @@ func TestC16(t *testing.T) {
 			jobs = append(jobs, job{"signer", 800000 + i, 1, 600, []int{0, 2, 1}[i%3]})
 		}
 	}
-	jobs = append(jobs, job{"witness", 0, 0, 0, 0}, job{"twosigners", 0, 0, 0, 0})
+	jobs = append(jobs, job{"witness", 0, 0, 0, 0}, job{"twosigners", 0, 0, 0, 0}, job{"certexpiry", 0, 0, 0, 0})
 	for f, i := 0, 0; f < nSigner; f, i = f+sBatch, i+1 {
 		// scheduler regimes: default GOMAXPROCS, 2 and 1 processors
 		jobs = append(jobs, job{"signer", f, min(sBatch, nSigner-f), 0, []int{0, 2, 1, 2}[i%4]})
@@ -225,7 +233,7 @@ func TestC16(t *testing.T) {
 			defer mu.Unlock()
 			tag := fmt.Sprintf("%s first=%d count=%d stress=%d gomaxprocs=%d", jb.mode, jb.first, jb.count, jb.stress, jb.procs)
 			for _, hz := range cr.Hazards {
-				r.Violation("deadlock", "a goroutine re-acquires a lock it holds: "+hz, map[string]any{"batch": tag, "hazard": hz, "child_blocked_until_stopped": cr.TimedOut})
+				r.Violation("deadlock", "lock discipline violated (reported by the shim before the goroutine blocked): "+hz, map[string]any{"batch": tag, "hazard": hz, "child_blocked_until_stopped": cr.TimedOut})
 			}
 			if cr.TimedOut && len(cr.Hazards) > 0 {
 				return
@@ -273,6 +281,25 @@ func TestC16(t *testing.T) {
 					for _, p := range ps {
 						pm, _ := p.(map[string]any)
 						r.Violation(fmt.Sprint(pm["signature"]), "several jwt finalizers with key stores of their own: "+fmt.Sprint(pm["text"]), pm)
+					}
+				}
+				return
+			}
+			if jb.mode == "certexpiry" {
+				if h, ok := co.Witness["harness"]; ok {
+					r.Inconclusive(fmt.Sprintf("certificates expiring while the instance runs: %v", h))
+					return
+				}
+				num := func(k string) int { f, _ := co.Witness[k].(float64); return int(f) }
+				r.Case("certificate-of-active-key-expires-while-running", num("tokens_issued_after_certificate_expiry") > 0 && num("key_sets_fetched_after_certificate_expiry") > 0)
+				for _, k := range []string{"tokens", "tokens_issued_after_certificate_expiry", "token_requests_refused", "key_sets", "key_sets_fetched_after_certificate_expiry"} {
+					r.Count("certexpiry_"+k, num(k))
+				}
+				r.Set("certificates_expiring_while_running", map[string]any{"signers": co.Witness["signers"], "certificate_validity_s": co.Witness["certificate_validity_s"]})
+				if ps, ok := co.Witness["problems"].([]any); ok {
+					for _, p := range ps {
+						pm, _ := p.(map[string]any)
+						r.Violation(fmt.Sprint(pm["signature"]), "certificates expiring while the instance runs: "+fmt.Sprint(pm["text"]), pm)
 					}
 				}
 				return
